@@ -21,6 +21,7 @@ type ClientServerStream struct {
 
 	serverSend chan any
 	clientSend chan any
+	trailerM   sync.Mutex // guards trailer, which may be read (after a context cancellation) while the handler is still running
 	trailer    metadata.MD
 	closed     context.CancelFunc
 	closeErrM  sync.Mutex // guards closeErr, which may be read (after a parent context cancellation) while Close is running
@@ -94,6 +95,8 @@ func (c *clientStream) Header() (metadata.MD, error) {
 }
 
 func (c *clientStream) Trailer() metadata.MD {
+	c.trailerM.Lock()
+	defer c.trailerM.Unlock()
 	return c.trailer
 }
 
@@ -161,6 +164,8 @@ func (s *serverStream) SendHeader(md metadata.MD) error {
 }
 
 func (s *serverStream) SetTrailer(md metadata.MD) {
+	s.trailerM.Lock()
+	defer s.trailerM.Unlock()
 	s.trailer = metadata.Join(s.trailer, md)
 }
 
